@@ -25,7 +25,7 @@ func childBudget(n int) time.Duration { return 60*time.Second + time.Duration(n/
 
 // TestLoopDeep: very deep nesting, run in a child process (a stack overflow is fatal and cannot be recovered).
 func TestLoopDeep(t *testing.T) {
-	ev.Checks(6, 10)
+	ev.Checks(8, 10)
 
 	maxBytes := ev.Pick(1<<20, 32<<20)
 
@@ -103,7 +103,8 @@ func TestLoopDeep(t *testing.T) {
 			t.Fatalf("VERIF-VIOLATION C11: usability: after the complete deep line no command was accepted, not even the trailing NOOP (%s)\n%s", cv.detail, desc())
 		}
 
-		nontrivial := term != "\r\n" || (cv.iters >= 2 && cv.accepted >= 1 && cv.accepted < cv.iters-1+1)
+		// ends inside a token, or a rejected line followed by an accepted one (the last iteration is the end of the stream)
+		nontrivial := term != "\r\n" || (cv.accepted >= 1 && cv.iters-cv.accepted >= 2)
 		ev.Case(nontrivial, hashBytes(input), labels...)
 		ev.Excluded(excluded)
 
